@@ -511,7 +511,19 @@ def row_case(part, u, x):
         # key: innermost difference between a freshly built object of the same recipe and the object now
         N = u["N"]
         T, dom, _ = U.terminals()
-        fresh = build_any(u["recipes"][x % N], T, dom, {})
+        w = wit(x, x)
+        w["part"] = "A-mutate"
+        try:
+            fresh = build_any(u["recipes"][x % N], T, dom, {})
+        except Exception as e:  # noqa: BLE001
+            # not even the constructors work any more: a shared (fly-weight / cached) object was modified
+            part.violation(
+                f"global-state-corrupted:{type(e).__name__}",
+                f"an object of the universe changed its repr/hash/str/shape and rebuilding its recipe now raises {type(e).__name__}: {e} "
+                "(a shared instance was modified by an earlier comparison, pickle or copy)",
+                w,
+            )
+            return hits
         now = repr(xx)
         partner = [y for y in hits if A[y][0] == now and A[y][0] != A[x][0]]
         w = wit(x, partner[0] if partner else x)
